@@ -316,6 +316,7 @@ def finish(res, level="proof"):
         "trusted_base": res.trusted,
         "theorems": pr.get("theorems", []),
         "axioms_printed": pr.get("axioms", {}),
+        "coqchk": pr.get("coqchk", "thorough tier only"),
         "evaluations": res.evaluations,
         "distinct_nontrivial": len(res.nontrivial),
         "rule": res.rule,
@@ -351,6 +352,17 @@ def standard_build(res, need_go=True, need_ocaml=True):
         if not ok:
             res.broken.append("Params.v cannot be regenerated from the Go constants: " + out)
         res.proof = proof_stage(res.prop)
+        if res.tier == "thorough" and not res.proof["errors"]:
+            # independent re-check of the compiled theorems and everything they depend on (the model, the proofs, the
+            # standard library files they load), with the list of axioms of the whole context
+            rc, out = sh(["coqchk", "-silent", "-o", "-Q", COQ, "SDB", "SDB.Props.%s" % res.prop], timeout=7200)
+            m = re.search(r"\* Axioms:\s*(.*?)\n\s*\n", out, flags=re.S)
+            axs = " ".join(m.group(1).split()) if m else "?"
+            res.proof["coqchk"] = {"rc": rc, "axioms": axs,
+                                   "no_type_in_type": "type-in-type: <none>" in out, "no_unsafe_fixpoints": "unsafe (co)fixpoints: <none>" in out, "no_assumed_positivity": "positivity is assumed: <none>" in out}
+            res.proof["checker_cmd"] += " + coqchk -silent -o -Q coq SDB SDB.Props.%s" % res.prop
+            if rc != 0 or axs != "<none>" or not (res.proof["coqchk"]["no_type_in_type"] and res.proof["coqchk"]["no_unsafe_fixpoints"] and res.proof["coqchk"]["no_assumed_positivity"]):
+                res.proof["errors"].append("coqchk does not confirm the compiled theorems (rc=%d, axioms: %s): %s" % (rc, axs, out[-400:]))
         for e in res.proof["errors"]:
             res.broken.append(e)
         if res.proof["discharged"] < res.proof["obligations"] and not res.proof["errors"]:
